@@ -5,6 +5,10 @@ CLAIMED = {
  "C02": ("TREE at exact rational scalar + CLOSURE (BFS with state dedup) at f64 vs batch definition", "2.C02"),
  "C05": ("TREE at exact rational scalar + f64 CLOSURE vs batch gains/losses definition; lockstep negation pairs", "2.C05"),
  "C06": ("TREE at Q and f64 vs Pearson/Kendall/CoG definitions; lockstep negation/relabelling pairs", "2.C06"),
+ "C03": ("TREE x TREE at exact rational scalar (prefix.suffix vs fresh instance on the suffix) + f64 CLOSURE single-valuedness of last-K-inputs -> output", "2.C03"),
+ "C04": ("TREE at exact rational scalar with lockstep affine images and perturbed twins; constant streams", "2.C04"),
+ "C14": ("TREE with lockstep stand-alone children, bit-exact pointwise oracle", "2.C14"),
+ "C18": ("exhaustive cycle drivers: scalar-slot count of the real structs' Debug rendering + counting global allocator at L and 4L", "2.C18"),
  "C11": ("TREE at f64/Q + exhaustive cycle drivers vs from-scratch batch evaluation of the difference equations", "2.C11"),
 }
 ALL = ["C%02d" % i for i in range(1, 19)]
